@@ -303,4 +303,79 @@ theorem dedupKey_nodup (le : Pt → Pt → Bool) (S : Pt → Prop)
       (fun z hz => hl z (List.mem_cons_of_mem _ hz)) hsxs hxall
     exact List.nodup_cons.mpr ⟨fun hmem => (h2 x hmem).1 rfl, h1⟩
 
+/-! ### the code's key order equals its orientation form -/
+
+/-- Core fact: on the half-plane of points after the pivot, comparing the slope keys
+`dx / (−dy)` (by cross-multiplication, `dy = 0 ↦ +∞`) is the same as the sign of the
+orientation. -/
+theorem keyLe_eq_exactLe {m p q : Pt} (hp : InS m p) (hq : InS m q) :
+    keyLe m p q = exactLe m p q := by
+  by_cases ep : p = m
+  · simp [keyLe, exactLe, ep]
+  by_cases eq : q = m
+  · simp [keyLe, exactLe, ep, eq]
+  have hp' := hp.resolve_left ep
+  have hq' := hq.resolve_left eq
+  simp only [keyLe, exactLe, ep, eq, if_false]
+  have hcross : cross m p q = (p.1 - m.1) * (q.2 - m.2) - (p.2 - m.2) * (q.1 - m.1) := rfl
+  generalize p.1 - m.1 = a at *
+  generalize p.2 - m.2 = b at *
+  generalize q.1 - m.1 = c at *
+  generalize q.2 - m.2 = d at *
+  rw [hcross]
+  unfold HPv at hp' hq'
+  by_cases hb : b = 0
+  · -- p level with the pivot: key +∞
+    have ha : a > 0 := by rcases hp' with h | h <;> omega
+    subst hb
+    by_cases hd : d = 0
+    · subst hd; simp
+    · have hdn : d < 0 := by rcases hq' with h | h <;> omega
+      have : a * d < 0 := mul_neg_of_pos_of_neg ha hdn
+      simp [hd]
+      omega
+  · have hbn : b < 0 := by rcases hp' with h | h <;> omega
+    by_cases hd : d = 0
+    · have hc : c > 0 := by rcases hq' with h | h <;> omega
+      subst hd
+      have : b * c < 0 := mul_neg_of_neg_of_pos hbn hc
+      simp [hb]
+      omega
+    · simp only [hb, hd, if_false]
+      have e1 : (a * (-d) < c * (-b)) ↔ (0 < a * d - b * c) := by
+        constructor <;> intro h <;> nlinarith
+      have e2 : (a * (-d) = c * (-b)) ↔ (a * d - b * c = 0) := by
+        constructor <;> intro h <;> nlinarith
+      simp only [e1, e2]
+      generalize a * d - b * c = X
+      generalize decide (sqDist m p ≤ sqDist m q) = S
+      rcases lt_trichotomy X 0 with h | h | h
+      · have n1 : ¬ (0 < X) := by omega
+        have n2 : ¬ (X = 0) := by omega
+        have n3 : ¬ (X > 0) := by omega
+        simp only [n1, n2, n3, h, decide_false, decide_true, if_false, if_true, Bool.false_eq_true]
+      · subst h
+        simp
+      · have n1 : (X > 0) := h
+        simp only [h, n1, decide_true, if_true]
+
+theorem insertBy_congr {α : Type} (le1 le2 : α → α → Bool) (x : α) (l : List α)
+    (h : ∀ y ∈ l, le1 x y = le2 x y) : insertBy le1 x l = insertBy le2 x l := by
+  induction l with
+  | nil => rfl
+  | cons y ys ih =>
+    simp only [insertBy]
+    rw [h y List.mem_cons_self, ih (fun z hz => h z (List.mem_cons_of_mem _ hz))]
+
+theorem isort_congr {α : Type} (le1 le2 : α → α → Bool) (l : List α)
+    (h : ∀ x ∈ l, ∀ y ∈ l, le1 x y = le2 x y) : isort le1 l = isort le2 l := by
+  induction l with
+  | nil => rfl
+  | cons x xs ih =>
+    simp only [isort]
+    rw [ih (fun a ha b hb => h a (List.mem_cons_of_mem _ ha) b (List.mem_cons_of_mem _ hb))]
+    apply insertBy_congr
+    intro y hy
+    exact h x List.mem_cons_self y (List.mem_cons_of_mem _ ((mem_isort le2 y xs).mp hy))
+
 end RtenVerif.Poly
